@@ -116,7 +116,7 @@ def exec_session(R, texts, ops, target, want_fp=False):
 
     def do_main(op, intr_k=None):
         "the same election through the package's own driver, Droop.main, reading the file from the simulated disk"
-        opts = dict(op['options'])
+        opts = {} if op.get('call') else dict(op['options'])
         # the driver always reads the same path; the file is rewritten before each run, as a user re-running the
         # counter on an updated ballot file would do
         opts['path'] = '/simfs/ballots.blt'
@@ -141,7 +141,13 @@ def exec_session(R, texts, ops, target, want_fp=False):
         if op.get('via') == 'main' and R.Droop is not None:
             return do_main(op, intr_k)
         prof = profile_for(op)
-        E = Election(prof, dict(op['options']))
+        call = op.get('call')
+        if call == 'none':
+            E = Election(prof)              # options come from the file's [droop ...] line
+        elif call == 'empty':
+            E = Election(prof, {})
+        else:
+            E = Election(prof, dict(op['options']))
         interrupted = False
         if intr_k is None:
             # no step clock here: generated configurations never include rational Meek/Warren, and the
@@ -392,6 +398,17 @@ def gen_session(seed, idx, extended=False):
             tags.add('predecessor_via_Droop_main')
     if target.get('via') == 'main':
         tags.add('target_via_Droop_main')
+    # some elections carry their options in the ballot file ([droop ...]) and are built as Election(profile) or
+    # Election(profile, {}) -- the call shape of a program that leaves configuration to the file
+    for op in ops + [target]:
+        if op.get('op') in ('count', 'interrupted') and rnd.random() < 0.12:
+            e2 = dict(elections[op['profile']] if op['profile'] < len(elections) else elections[0])
+            e2['droop'] = gen.droop_tokens(op['options'])
+            texts.append(gen.render_blt(e2, rnd))
+            op['profile'] = len(texts) - 1
+            op['share'] = False
+            op['call'] = rnd.choice(('none', 'empty'))
+            tags.add('target_options_embedded_in_file' if op is target else 'predecessor_options_embedded_in_file')
     return dict(texts=texts, ops=ops, target=target, tags=sorted(tags))
 
 
@@ -456,7 +473,7 @@ GRID_TEXTS = [
 
 def _target_key(texts, target):
     return hashlib.sha1(repr((texts[target['profile']], sorted(target['options'].items()), target['share'],
-                              target['render'], target.get('via'))).encode()).hexdigest()
+                              target['render'], target.get('via'), target.get('call'))).encode()).hexdigest()
 
 
 def run_session(R, sess, alone_cache=None, want_fp=True):
